@@ -116,7 +116,11 @@ def buildShape (leaf : String) : List String → Nat → Option (List Stmt × Li
       let f := pc (bare ∧ inElse)
       let body := seqOf (a ++ child ++ b)
       let elseL := e ++ child ++ f
-      let mk (l : List Stmt) := some (l ++ [piece], blocks)
+      -- closure probe: `{% set cv = 'o' %}{% macro cmD() %}{{ cv }}{% endmacro %}` in front of the
+      -- construct, `{% set cv = 'nD' %}{{ cmD() }}` behind it
+      let decl : List Stmt := [os 2, .macroS 0 (os 2) 2 1]
+      let check : List Stmt := [os 2, .simple [.callFunction, .other]]
+      let mk (l : List Stmt) := some (decl ++ l ++ check ++ [piece], blocks)
       if kind = "for" then mk [.forS true false 1 1 body]
       else if kind = "fore" then mk [.forElse true false 1 1 body piece]
       else if kind = "forEl" then
@@ -130,24 +134,37 @@ def buildShape (leaf : String) : List String → Nat → Option (List Stmt × Li
       else if kind = "ae1" ∨ kind = "ae0" then mk [.autoEscape 1 body]
       else if kind = "ifc" then mk [.ifS 1 body]
       else if kind = "ifk" then mk [.ifS 3 body]
+      else if kind = "ifa" then
+        -- `c and x is defined or 3 < k < 9`, then `{{ 'y' if c else 'n' }}`
+        mk [.flat [.other, .jumpIfFalseOrPop 4, .other, .other, .jumpIfTrueOrPop 14, .other, .other, .other,
+                   .jumpIfFalseOrPop 12, .other, .other, .jump 14, .other, .other],
+            .ifS 0 body,
+            .flat [.other, .jumpIfFalse 4, .other, .jump 5, .other], os 1]
       else if kind = "ifEl" then mk [if elseL.isEmpty then .ifS 1 piece else .ifElse 1 piece (seqOf elseL)]
       else if kind = "mac" then mk [.macroS 0 body 2 1, .simple [.callFunction, .other]]
       else if kind = "call" then
         mk [.macroS 0 (.simple [.other, .callFunction, .other, .other]) 2 1, os 1, .macroS 0 body 2 1,
             .simple [.callFunction, .other]]
-      else if kind = "blk" then some ([os 1, piece], (s!"b{d}", body) :: blocks)
+      else if kind = "blk" then some (decl ++ [os 1] ++ check ++ [piece], (s!"b{d}", body) :: blocks)
       else if kind = "seqW" then mk ([.withS 2 piece] ++ child)
       else if kind = "seqS" then mk ([.capture piece 1, os 2] ++ child)
       else if kind = "seqA" then mk ([.autoEscape 1 piece] ++ child)
       else if kind = "seqL" then mk ([.forS true false 1 1 piece] ++ child)
       else if kind = "seqI" then mk ([os 4] ++ child)
       else if kind = "seqM" then mk ([.importS 1 4, .simple [.other, .callFunction, .other]] ++ child)
-      else if kind = "tmac" then mk [.macroS 1 body 2 1, .simple [.other, .other, .callFunction, .other]]
+      else if kind = "seqN" then mk ([os 4] ++ child)
+      else if kind = "seqH" then mk ([os 2] ++ child)
+      else if kind = "seqP" then mk ([.importS 1 1, os 4] ++ child)
+      else if kind = "tmac" then
+        -- `macro nD(ma, mb='q')`: the default of `mb` is a jump over `DiscardTop; LoadConst`
+        mk [.macroS 0 (.seq (.flat [.other, .other, .jumpIfFalse 5, .other, .other]) (.seq (os 2) body)) 2 1,
+            .simple [.other, .other, .callFunction, .other]]
       else if kind = "tcal" then
         mk [.macroS 0 (.simple [.other, .other, .callFunction, .other, .other]) 2 1, os 1, .macroS 0 body 2 1,
             .simple [.callFunction, .other]]
       else if kind = "tblk" then
-        some ([.ifS 1 (os 1), .simple [.other, .callFunction, .other], piece], (s!"t{d}", body) :: blocks)
+        some (decl ++ [.ifS 1 (os 1), .simple [.other, .callFunction, .other]] ++ check ++ [piece],
+          (s!"t{d}", body) :: blocks)
       else none
 
 /-- the statement the model generator compiles for a stream of a shape -/
